@@ -96,6 +96,9 @@ fn from_explicit(root: &Option<String>, moves: &[String]) -> Option<Game17> {
 fn command(g: &Game17) -> String {
     let mut s = match &g.root {
         None => "position startpos".to_string(),
+        // the two counters are optional in the engine's grammar: when they have their default
+        // values, every other such root is sent in the four-field form
+        Some(f) if f.ends_with(" 0 1") && crate::framework::hash_of(f) % 2 == 0 => format!("position fen {}", &f[..f.len() - 4]),
         Some(f) => format!("position fen {f}"),
     };
     if !g.moves.is_empty() {
@@ -130,7 +133,7 @@ fn check(g: &Game17, st: &mut Stats) -> Result<(), Fail> {
         Ok(UciCommand::Position { position, moves }) => {
             let ok_pos = match (&g.root, &position) {
                 (None, Position::StartPos) => true,
-                (Some(f), Position::Fen(x)) => f == x,
+                (Some(f), Position::Fen(x)) => f == x || (f.ends_with(" 0 1") && &f[..f.len() - 4] == x.as_str()),
                 _ => false,
             };
             if !ok_pos {
